@@ -323,11 +323,11 @@ pub fn sites(tier: Tier) -> Vec<Site> {
     // 1c. messages larger than the adaptor's 1020-byte buffer
     {
         let rs = read_sizes.clone();
-        sites.push(Site::new("adaptor-large", rs.len() as u64 * 3,
-            "one binary message of 2000 bytes; 1020 + 1 bytes; 3 x 1500 bytes x every read size",
+        sites.push(Site::new("adaptor-large", rs.len() as u64 * 6,
+            "one binary message of 2000 bytes; 1020 + 1 bytes; 3 x 1500 bytes; one of 70 000 bytes; 65 536 + 4 bytes; one of 200 000 bytes x every read size",
             move |i, acc| {
                 let size = rs[(i % rs.len() as u64) as usize];
-                let lens: Vec<usize> = match i / rs.len() as u64 { 0 => vec![2000], 1 => vec![1020, 1], _ => vec![1500, 1500, 1500] };
+                let lens: Vec<usize> = match i / rs.len() as u64 { 0 => vec![2000], 1 => vec![1020, 1], 2 => vec![1500, 1500, 1500], 3 => vec![70_000], 4 => vec![65_536, 4], _ => vec![200_000] };
                 let mut stream = vec![];
                 let mut script = vec![];
                 for (k, l) in lens.iter().enumerate() {
